@@ -1220,7 +1220,8 @@ def _c06_class(src, loc, hk, kind):
 # =============================================================================================== end-to-end three-way (C01 C03 C04 C05 C07)
 E2E_BITS = {"C01": 8, "C03": 64, "C04": 128, "C05": 256, "C07": 32}
 OVERRIDABLE = ["integer", "boolean", "string", "add", "subtract", "multiply", "less_than", "equal", "read_identifier", "read_attribute", "read_subscript",
-               "write", "post_call", "enter_if", "enter_while", "_return", "_assert", "_break", "_continue", "literal", "binary_operation", "comparison", "function_exit"]
+               "write", "post_call", "enter_if", "enter_while", "_return", "_assert", "_break", "_continue", "literal", "binary_operation", "comparison", "function_exit",
+               "enter_control_flow", "enter_for"]
 
 
 def e2e_cases(ctx, pid, n):
@@ -1270,7 +1271,7 @@ def e2e_cases(ctx, pid, n):
             # one-shot overriding analysis: at occurrence k of hook h return v
             hk = rng.choice([x for x in OVERRIDABLE])
             k = rng.randrange(0, 3)
-            val = rng.choice([True, False]) if hk in ("enter_if", "enter_while", "_assert", "_break", "_continue", "boolean") else rng.choice([0, 1, 5, 7])
+            val = rng.choice([True, False]) if hk in ("enter_if", "enter_while", "_assert", "_break", "_continue", "boolean", "enter_control_flow") else rng.choice([0, 1, 5, 7])
             if hk == "string":
                 val = "zz"
             ans = [{"cls": "A0", "hooks": {x: None for x in set(hooks) | {hk}}, "script": {hk: [None] * k + [val]}}]
@@ -1303,7 +1304,8 @@ def check_e2e(ctx, pid):
             if pid == "C07":
                 # systematic one-shot overrides: every overridable hook x occurrence 0/1 x a falsy and a truthy value
                 oc, orc = corpus.override_cases(pid, OVERRIDABLE, [x for x in leaves_ if x not in EXEC_LEVEL])
-                cases, rcases = cases + oc, rcases + orc
+                fc, frc = corpus.override_for_cases(pid, [x for x in leaves_ if x not in EXEC_LEVEL])
+                cases, rcases = cases + oc + fc, rcases + orc + frc
             m = 0
             res = runner.run_cases(rcases)
             metas, err = e2e.three_way(ctx.work, cases, res, "%s_corpus" % pid)
